@@ -305,10 +305,20 @@ Proof.
   rewrite rev_app_distr. cbn [rev app]. rewrite N.eqb_refl. now rewrite rev_involutive.
 Qed.
 
-Lemma display_quoted s : s_q s <> QNone ->
+Lemma display_quoted s : s_q s <> QNone -> existsb is_private_use (s_val s) = false ->
   exists q, is_quote q /\ css_display s = q :: flat_map (display_char (Some q)) (s_val s) ++ [q].
 Proof.
-  intros H. unfold css_display. destruct (s_q s); [exists 34|exists 39|congruence]; split; try reflexivity; [now left|now right].
+  intros H P. unfold css_display. rewrite (display_body_flat _ _ P).
+  destruct (s_q s); [exists 34|exists 39|congruence]; split; try reflexivity; [now left|now right].
+Qed.
+
+Lemma stored_no_pu ps : forallb wf1 ps = true -> existsb is_private_use (stored ps) = false.
+Proof.
+  unfold stored. induction ps as [|p r IH]; intros W; [reflexivity|]. cbn [forallb] in W. apply andb_true_iff in W as [Wp Wr].
+  cbn [flat_map]. rewrite existsb_app, (IH Wr), orb_false_r. destruct p as [cs| | | |ds]; try reflexivity.
+  - cbn [wf1] in Wp. apply andb_true_iff in Wp as [_ P]. cbn [stored1 denot1]. now apply plain_no_pu.
+  - cbn [wf1] in Wp. apply andb_true_iff in Wp as [_ G]. apply good_hexv_facts in G as (_ & _ & _ & _ & P & _).
+    cbn [stored1 denot1 existsb]. now rewrite P.
 Qed.
 
 Theorem emit_pieces ps : wf ps = true ->
@@ -322,7 +332,7 @@ Proof.
   assert (V : s_val lv = stored ps) by reflexivity.
   assert (Qn : s_q lv <> QNone).
   { unfold lv, pref_dquotes. cbn [s_q s_val]. destruct (contains 34 (stored ps) && negb (contains 39 (stored ps))); discriminate. }
-  destruct (display_quoted lv Qn) as (q & Q & D).
+  destruct (display_quoted lv Qn (stored_no_pu ps W1)) as (q & Q & D).
   exists lv, (flat_map (display_char (Some q)) (stored ps)). split; [reflexivity|]. split; [exact V|].
   rewrite D, V. split; [now apply token_body_quoted|].
   rewrite (decode_render ps W1). split; [now apply decode_display|reflexivity].
@@ -391,7 +401,7 @@ Proof.
   set (lv := pref_dquotes (mkStr (stored ps) QDouble)).
   assert (Qn : s_q lv <> QNone).
   { unfold lv, pref_dquotes. cbn [s_q s_val]. destruct (contains 34 (stored ps) && negb (contains 39 (stored ps))); discriminate. }
-  destruct (display_quoted lv Qn) as (q & Q & D). exists lv. split; [reflexivity|].
+  destruct (display_quoted lv Qn (stored_no_pu ps W1)) as (q & Q & D). exists lv. split; [reflexivity|].
   change (s_val lv) with (stored ps) in D. unfold token_denotes. rewrite D, (token_body_quoted q _ Q).
   rewrite (wd_display q ps Q W1), (decode_display q ps Q W1), (decode_render ps W1). cbn [andb].
   unfold cps_eqb. clear. induction (denot ps) as [|x r IH]; [reflexivity|]. cbn. now rewrite N.eqb_refl.
